@@ -265,6 +265,7 @@ def rule_cbzero(ctx, rep, rule="R-CBZERO"):
                 continue
             key = b["key"]
             sites = {}
+            consuming = any(F.tokens(t)[0] > 0 for t in b.get("inputs", []))
             for p in A.paths[key]:
                 for e in p.events:
                     if e["kind"] == "CALL" and isinstance(e["detail"], dict) and e["detail"].get("outcome") in (None, "unw"):
@@ -302,6 +303,8 @@ def rule_cbzero(ctx, rep, rule="R-CBZERO"):
                         continue
                     run = e["run"]
                     st = sites.setdefault(e["bb"], {"ok": True, "p": None, "e": e})
+                    if consuming and imbalance(run) == 0:
+                        continue  # a function that takes its handle by value may have turned it into something else by now (`map`): what counts is that the count equals the owners while the callback runs
                     if (dcount(run) != 0 or vget(run, "own") != 0) and st["ok"]:
                         st["ok"] = False
                         st["p"] = p
@@ -406,6 +409,83 @@ def rule_writeback(ctx, rep, rule="R-WRITEBACK"):
             else:
                 rep.ok(rule, key, cfg=tag)
     return n
+
+
+READ_CALLS = ("core::ptr::read", "<*const T>::read", "<*mut T>::read", "<core::ptr::non_null::NonNull<T>>::read", "core::ptr::read_unaligned")
+
+
+def rule_payload_dup(ctx, rep, rule="R-PAYLOAD-DUP"):
+    """A payload value read out of its block bitwise (`ptr::read(&*this)`) exists twice until the handle it was read from has
+    been retired without its destructor (parked in ManuallyDrop, taken apart by into_raw, re-typed to MaybeUninit). If anything
+    can unwind in between - a caller's closure, a Clone - the unwinding drops the copy *and* the handle's destructor destroys
+    the value in the block: destroyed twice. Judged on the recorded unwind paths of every API function: after such a read, no
+    drop of an owning handle that runs user code (the payload's destructor)."""
+    from . import ptrclass, symx
+
+    n = 0
+    for tag, F, E in ctx.each():
+        A = analysis(tag, F, E)
+        N = ptrclass.Norm(F)
+        for b in F.body_list:
+            if not is_api(F, b) or b["key"] in A.errors:
+                continue
+            B = None
+            reads = []
+            for bi, bl in enumerate(b["blocks"]):
+                t = bl["term"]
+                if t["k"] != "call" or not t["args"]:
+                    continue
+                r = t.get("resolved")
+                path = r["def"] if isinstance(r, dict) else (t.get("callee") or "")
+                if path not in READ_CALLS:
+                    continue
+                if B is None:
+                    B = cfg.Body(b)
+                nf = N.norm(symx.expr(F, B, t["args"][0]), {})
+                x = nf[1] if nf[0] == "data" else None
+                while x is not None and x[0] == "stored":
+                    x = x[1]
+                if x is not None and x[0] == "arg" and F.tokens(b["inputs"][x[1] - 1])[0] > 0:
+                    reads.append((bi, t, x[1]))
+            for bi, t, argi in reads:
+                n += 1
+                ik = "%s/read-of-payload:arg%d" % (b["key"], argi)
+                bad = None
+                for p in A.paths.get(b["key"], []):
+                    if p.exit != "unw" or bi not in p.blocks:
+                        continue
+                    blocks = list(p.blocks)
+                    i0 = blocks.index(bi)
+                    after = set(blocks[i0 + 1 :])
+                    for e in p.events:
+                        if e["kind"] == "DROP" and e["bb"] in after and vget(e["vec"], "own") < 0 and vget(e["vec"], "user") > 0:
+                            d = e["detail"] if isinstance(e["detail"], dict) else {}
+                            ti = d.get("ty_idx")
+                            if ti is not None and _payload_is_uninit(F, ti):
+                                continue  # a handle re-typed to `MaybeUninit<_>`: its destructor frees the block and destroys nothing
+                            bad = (p, e)
+                            break
+                    if bad:
+                        break
+                if bad:
+                    p, e = bad
+                    rep.bad(rule, ik, path_report(F, b, p, "the payload is read out of the block bitwise (line %s) while the handle it belongs to is still armed: on this unwinding path the handle's destructor (line %s) destroys the value in the block although the copy that was read out is destroyed too - the same value is destroyed twice" % (t["span"]["line"], e["span"]["line"])), F.loc(b, t["span"]), tag)
+                else:
+                    rep.ok(rule, ik, cfg=tag)
+    return n
+
+
+def _payload_is_uninit(F, ty_idx, depth=0):
+    """The handle type's payload is `MaybeUninit<_>` (directly, or inside UniqueArc's wrapped Arc)."""
+    t = F.ty(ty_idx)
+    if t["k"] != "adt" or depth > 3:
+        return False
+    if t["path"] == "core::mem::maybe_uninit::MaybeUninit":
+        return True
+    for a in t.get("args", []):
+        if "t" in a and _payload_is_uninit(F, a["t"], depth + 1):
+            return True
+    return False
 
 
 PARK_CALLS = ("<core::mem::manually_drop::ManuallyDrop<T>>::new",)
